@@ -1642,6 +1642,15 @@ stat_grid_h!(stat_grid_2x2x2, 3, 8, [2, 2, 2], 20);
 // @harness props=C17 tier=quick group=f64 role=ok bounds=shape=[1,2,2],cells=0..3,all-14-statistics timeout=1800
 stat_grid_h!(stat_grid_1x2x2, 3, 4, [1, 2, 2], 20);
 
+// @harness props=C17 tier=quick group=f64 role=ok bounds=shape=[3,3,1],cells=0..3,all-14-statistics timeout=1800
+stat_grid_h!(stat_grid_3x3x1, 3, 9, [3, 3, 1], 20);
+
+// @harness props=C17 tier=thorough group=f64 role=ok bounds=shape=[3,3,2],cells=0..3,all-14-statistics timeout=1800
+stat_grid_h!(stat_grid_3x3x2, 3, 18, [3, 3, 2], 21);
+
+// @harness props=C17 tier=thorough group=f64 role=ok bounds=shape=[3,3,1,1],cells=0..3,all-14-statistics timeout=1800
+stat_grid_h!(stat_grid_3x3x1x1, 4, 9, [3, 3, 1, 1], 20);
+
 // @harness props=C17 tier=thorough group=f64 role=ok bounds=shape=[2,1,3],cells=0..3,all-14-statistics timeout=1800
 stat_grid_h!(stat_grid_2x1x3, 3, 6, [2, 1, 3], 20);
 
